@@ -250,6 +250,26 @@ def run(ctx):
         ctx.fail("SHAREDMUT positive control failed")
     rule_restore(ctx)
     rule_result_fresh(ctx)
+    from rules import _lints
+    RC = "CLASS-MUTABLE"
+    ctx.rule(RC, "no class of pandapower.diagnostic keeps a mutable literal at class level that its methods mutate through self without "
+                 "__init__ binding a fresh object (shared registry between instances); no function of the package is memoised "
+                 "(functools cache decorators): a cached Diagnostic instance carries the options of earlier calls")
+    dmods = [mn for mn in ctx.repo.module_names() if mn.startswith("pandapower.diagnostic")]
+    _lints.class_level_mutables(ctx, RC, dmods)
+    ncls = nfun = 0
+    for mn in dmods:
+        mod = ctx.repo.module(mn)
+        ncls += sum(1 for c in ast.walk(mod.tree) if isinstance(c, ast.ClassDef))
+        for f in ast.walk(mod.tree):
+            if isinstance(f, (ast.FunctionDef, ast.AsyncFunctionDef)):
+                nfun += 1
+                deco = [ast.unparse(d) for d in f.decorator_list]
+                memo = [d for d in deco if any(k in d for k in ("lru_cache", "functools.cache", "cached_property")) or d == "cache"]
+                if memo:
+                    ctx.ob(RC, f"{mn}::{f.name}::memoised", False, f"@{memo[0]} on {f.name}: the returned object (and the state it accumulates) is "
+                           "shared by all later calls", f"{mod.relpath}:{f.lineno}")
+    ctx.ob(RC, "pandapower.diagnostic::<package>::scanned", ncls >= 20 and nfun >= 60, f"{ncls} classes and {nfun} functions scanned, none shares state", "pandapower/diagnostic")
 
 
 def rule_result_fresh(ctx):
@@ -294,6 +314,8 @@ def variants(repo):
     df = "pandapower/diagnostic/diagnostic_functions.py"
     V = Variant
     return [
+        V("function registry at class level", dg, lambda s: s.replace("    def __init__(self, add_default_functions: bool = True):\n        self._functions: list[tuple[str, DiagnosticFunction, list[str] | None]] = []\n        self._report_functions: list[Callable] = []\n", "    _functions: list = []\n    _report_functions: list = []\n\n    def __init__(self, add_default_functions: bool = True):\n", 1), "CLASS-MUTABLE"),
+        V("cached default diagnostic tool", "pandapower/diagnostic/diagnostic_helpers.py", lambda s: s.replace("def diagnostic(\n", "from functools import lru_cache\n\n\n@lru_cache(maxsize=None)\ndef _default_diagnostic_tool():\n    from pandapower.diagnostic.diagnostic import Diagnostic\n    return Diagnostic()\n\n\ndef diagnostic(\n", 1), "memoised"),
         V("kwargs shared through a conditional expression", dg, replace_once("self.kwargs = dict(default_argument_values)", "self.kwargs = default_argument_values if add_default_functions else {}"), "self.kwargs"),
         V("ward rows of the xward replacement not restored", df, lambda s: s.replace("            ward_copy = copy.deepcopy(net.ward)\n", "", 1).replace("net.ward = ward_copy", "pass", 1), "ImplausibleImpedanceValues.diagnostic::normal-paths"),
         V("results cleared in place", dg, lambda s: s.replace("        self.diag_results = {}\n        self.diag_errors = {}\n", "        self.diag_results.clear()\n        self.diag_errors.clear()\n", 1), "RESULT-FRESH"),
